@@ -161,6 +161,15 @@ class Ctx:
         r = rets[index]
         return self.expect(rule, fi.qual, r.value, expected_src, r, reason, label=lab, mutations=mutations)
 
+    def shared(self, func, rule_from, rule_to):
+        """Run a rule function of another property and file its obligations under this property's rule id (the same
+        construct is a necessary condition of both properties)."""
+        before = len(self.obligations)
+        func(self)
+        for o in self.obligations[before:]:
+            if o.rule == rule_from:
+                o.rule = rule_to
+
     def note(self, text):
         self.notes.append(text)
 
@@ -221,6 +230,8 @@ def run_property(prop, tier='quick', repo=None, write=True, out=sys.stdout, prog
         mod.run(ctx)
         from . import refdiff
         refdiff.run(ctx, 'R%s.0' % prop[1:])
+        from . import patterns
+        patterns.run(ctx, 'R%s.G' % prop[1:])
         if tier == 'thorough' and hasattr(mod, 'run_thorough'):
             mod.run_thorough(ctx)
     except AnchorMissing as e:
